@@ -30,7 +30,7 @@ REQUIRED_MONITORS = ('cli_vs_library_bytes', 'discovery_vs_truth', 'discovery_ha
 REQUIRED_CLASSES = ('mol:explicit-only', 'mol:explicit+auto', 'auto-only', 'exclude', 'exclude:several', 'output:given', 'output:default',
                     'input:other-directory', 'distractor:absent-species-topology', 'distractor:foreign-coordinates',
                     'distractor:unknown-extension', 'distractor:system-file-in-list', 'distractor:previous-output',
-                    'species-without-end-files', 'explicit-also-in-list', 'scale:non-default', 'output-path:absolute',
+                    'species-without-end-files', 'explicit-also-in-list', 'paths:explicit-and-listed-spelled-differently', 'scale:non-default', 'output-path:absolute',
                     'output-path:relative-plain', 'output-path:relative-subdir')
 RULE = ('generated directories of 2-4 species with distractor files (topologies of absent species, foreign coordinate files, '
         'unknown extensions, the system file and a previous output in the candidate list, a species without end files) x '
@@ -110,7 +110,7 @@ def truth_assignment(w, exclude_known=()):
         if n in exclude_known:
             continue
         f = w['files'][n]
-        out[n] = {'top_CG': f['top_start'], 'top_AA': f['top_end'], 'coor_AA': f['gro_end']}
+        out[n] = {'top_CG': os.path.realpath(f['top_start']), 'top_AA': os.path.realpath(f['top_end']), 'coor_AA': os.path.realpath(f['gro_end'])}
     return out
 
 
@@ -130,7 +130,8 @@ except BaseException as exc:
 
 def complete_only(res):
     """The part of a discovery result the CLI acts upon."""
-    return {k: v for k, v in res.items() if len(v) == 3}
+    # (files are identified as files, not by the spelling of their path)
+    return {k: {role: os.path.realpath(f) for role, f in v.items()} for k, v in res.items() if len(v) == 3}
 
 
 def check_discovery(ctx, w, candidates, known, wit, n_orders, hash_seeds):
@@ -255,7 +256,24 @@ def run_world(ctx, case):
     else:
         explicit = []
         mode = 'auto-only'
-    triple = lambda n: [w['files'][n]['top_start'], w['files'][n]['gro_end'], w['files'][n]['top_end']]
+    def respell(path):
+        # another spelling of the same absolute path (as produced by shell completion, scripts joining directories, ...)
+        d, f = os.path.split(path)
+        style = int(rng.integers(0, 4))
+        if style == 0:
+            return path
+        ctx.hit('paths:explicit-and-listed-spelled-differently')
+        if style == 1:
+            return os.path.join(d, '.', f)
+        if style == 2:
+            return os.path.join(d, '..', os.path.basename(d), f)
+        return d + os.sep + os.sep + f
+    spelled = {}
+
+    def triple(n):
+        if n not in spelled:
+            spelled[n] = [respell(w['files'][n][k]) for k in ('top_start', 'gro_end', 'top_end')]
+        return list(spelled[n])
     auto = mode != 'explicit-only'
     candidates = []
     if auto:
@@ -265,6 +283,7 @@ def run_world(ctx, case):
             candidates += [w['files'][n]['top_start']] + ([w['files'][n]['gro_end'], w['files'][n]['top_end']] if n in complete else [])
         if any(w['files'][n]['top_start'] in candidates for n in explicit):
             ctx.hit('explicit-also-in-list')
+        candidates = [respell(c) if rng.random() < 0.3 else c for c in candidates]
         candidates += extra
         candidates = [candidates[int(j)] for j in rng.permutation(len(candidates))]
     auto_found = [n for n in complete if n not in explicit] if auto else []
